@@ -58,10 +58,10 @@ def run(ctx):
     for ph, pw, seed in VECTORS:
         cases.append((ph, ph, pw, "bip39-vector", bytes.fromhex(seed)))
     pws = list(PASSWORDS)
-    if thorough:
+    if True:
         pool = [chr(c) for c in list(range(0xc0, 0x250)) + list(range(0x300, 0x34f)) + list(range(0x1e00, 0x1f00)) + list(range(0x2460, 0x24ff)) +
                 list(range(0xff01, 0xff5f)) + list(range(0xac00, 0xac40)) + list(range(0x1100, 0x1113)) + list(range(0x3300, 0x3358))]
-        for _ in range(150):
+        for _ in range(150 if thorough else 30):
             pws.append("".join(rng.choice(pool) for _ in range(rng.randrange(1, 8))))
     k = 0
     for pw in pws:
